@@ -13,8 +13,7 @@ Print Assumptions C13_each_connection_gets_its_own_replies.
 
 (* tie: the functions this property's model describes by hand (not by translation) still have the pinned text; an
    edit to one of them breaks this obligation and sends the check searching for a failing input *)
-From VL Require Import ShapeFacts.
 From VLG Require Import ShapeGen.
 Theorem C13_modelled_code_is_the_pinned_text : shapes_for_C13 = true.
-Proof. exact shapes_C13_ok. Qed.
+Proof. vm_compute. reflexivity. Qed.
 Print Assumptions C13_modelled_code_is_the_pinned_text.
